@@ -10,8 +10,10 @@ CONSTANTS
   N4 = 3
   A5 = {"0", "1", "9", "+", "-", "_"}
   N5 = 6
+  A6 = {"1", "0", "9", ".", "e9999", "e-9999"}
+  N6 = 4
   MAX = 32767
   MaxDigits <- SmallMaxDigits
   Extra <- NoExtra
-INVARIANTS GrammarTotal UnderscoreAgree DenotAgree ScannersAgree FastPathExact AtofAgrees AtoiAgrees RangeRule DigitArith ThresholdRule IntIsFloat
+INVARIANTS GrammarTotal UnderscoreAgree DenotAgree ScannersAgree FastPathExact AtofAgrees AtoiAgrees IntIsFloat CaseBlind DigitBlind ThresholdRule
 CHECK_DEADLOCK FALSE
